@@ -873,12 +873,17 @@ fn corr_markdown(rep: &mut Report, text: &str, ilt: bool) {
                 cu = cu.max(e);
             }
             let leaf = matches!(c.0, 3 | 4 | 5 | 6 | 7);
-            if leaf && tc < cu {
+            if leaf && (behind || tc < cu) {
+                // `behind` = behind_cursor of b736ef8 (FC02c fixed): a replayed leaf event is always skipped now
                 guard_hits += 1;
+                if behind && tc >= cu {
+                    rep.monitor("md_guard_skipped_behind_cursor_only", 1);
+                }
                 continue;
             }
             // only an event that pushes a token can be mislocated: an unskipped leaf event or Start(List); End events
             // carry the range of the whole element and put their zero-width break at the cursor by design
+            // (since b736ef8 a leaf event behind the cursor never gets here: what is left is Start(List))
             if behind && (leaf || (c.0 == 0 && c.1 == 9)) {
                 monotone = false;
             }
